@@ -56,6 +56,11 @@ func (pf *ZKProof) Verify(Session []byte, X *crypto.ECPoint) bool {
 	if pf == nil || !pf.ValidateBasic() {
 		return false
 	}
+	// a point with a small-order component has no discrete logarithm to the base G, yet the
+	// verification equation would hold for it whenever the challenge kills that component
+	if !X.IsInPrimeOrderSubgroup() {
+		return false
+	}
 	ec := X.Curve()
 	ecParams := ec.Params()
 	q := ecParams.N
@@ -108,6 +113,9 @@ func NewZKVProof(Session []byte, V, R *crypto.ECPoint, s, l *big.Int, rand io.Re
 
 func (pf *ZKVProof) Verify(Session []byte, V, R *crypto.ECPoint) bool {
 	if pf == nil || !pf.ValidateBasic() {
+		return false
+	}
+	if !V.IsInPrimeOrderSubgroup() || !R.IsInPrimeOrderSubgroup() {
 		return false
 	}
 	ec := V.Curve()
